@@ -359,6 +359,13 @@ func runEdits(h *hz.H, types []protoreflect.MessageDescriptor) {
 			}
 			return true
 		})
+		// unknown records of every wire type, groups holding length-delimited fields among them
+		for _, u := range enum.UnknownAlphabet(md, enum.Boundary) {
+			if !seen[string(u)] {
+				seen[string(u)] = true
+				seeds = append(seeds, seed{md, u})
+			}
+		}
 		// (4) truncated map entries with a consistent outer length, and every C03 record
 		for _, r := range enum.RecordAlphabet(md, false) {
 			if !seen[string(r.Bytes)] {
